@@ -893,37 +893,26 @@ FormatterToXML::accumDefaultEscape(
         {
             if(ch > m_maxCharacter)
             {
-                if( !m_isXML1_1 && XalanUnicode::charLSEP == ch ) 
-                {
-                    throwInvalidCharacterException(ch, getMemoryManager());
-                }
-                else
-                {
-                    writeNumberedEntityReference(ch);
-                }
+                // U+2028 included: it is a legal XML 1.0 character, and
+                // XML 1.1 wants it written as a reference.
+                writeNumberedEntityReference(ch);
             }
             else if(ch < SPECIALSSIZE && m_attrCharsMap[ch] == 'S')
             {
                 if(ch < 0x20 )
                 {
-                    if(m_isXML1_1)
+                    // TAB, LF and CR are XML 1.0 characters; the other
+                    // C0 controls exist in XML 1.1 only, as references.
+                    if(m_isXML1_1 ||
+                       XalanUnicode::charHTab == ch ||
+                       XalanUnicode::charLF == ch ||
+                       XalanUnicode::charCR == ch)
                     {
                         writeNumberedEntityReference(ch);
                     }
                     else
                     {
                          throwInvalidCharacterException(ch, getMemoryManager());
-                    }
-                }
-                else if( XalanUnicode::charNEL == ch )
-                {
-                    if(m_isXML1_1)
-                    {
-                        writeNumberedEntityReference(ch);
-                    }
-                    else
-                    {
-                        throwInvalidCharacterException(ch, getMemoryManager());
                     }
                 }
                 else
